@@ -22,6 +22,12 @@ Streams
            of the library used in between
   proc     (round 3, oracle only) the round trip in a fresh interpreter under another locale,
            hash seed, optimisation level
+  tokobj   (round 4) one date / time / datetime object in a non-canonical shape (time zone aware,
+           microseconds, fold, subclass) handed to a Property: the stored value, its text and what
+           the reader makes of it vs Model/XmlTok.lean; oracle: the XML round trip of that Property
+Round 4 also widened the documents of every stream: values handed over in non-canonical shapes and
+through the whole value API (`vplan`), inferred dtypes, attributes that are no texts, cardinalities
+as lists / single ints / with bool bounds.
 """
 import csv
 import datetime
@@ -162,6 +168,389 @@ def gen_item(rng):
     return t.strip()
 
 
+# ----------------------------------------------------------------------------- value shapes (round 4)
+# "every document buildable through the public API": a value does not have to be handed over in the
+# canonical Python form of its dtype. Descriptors (JSON) of the objects a caller may pass instead:
+# time / datetime objects that are time zone aware (UTC, fixed offsets incl. negative and sub-minute
+# ones, an own tzinfo class, a tzinfo without offset), carry microseconds or fold=1, instances of
+# subclasses (with an own __str__), texts in the spellings strptime / int() / float() / boolean_get
+# accept, numbers of a neighbouring class (bool / float / Decimal / Fraction / IntEnum for int, ...),
+# anything at all for the text dtypes, None. `raw_value` builds the object; what the library makes
+# of it is its business - the document it then holds is what has to survive save / load.
+TZS = [None, None, {"k": "utc"}, {"k": "fixed", "sec": 7200}, {"k": "fixed", "sec": -19800},
+       {"k": "fixed", "sec": 20715}, {"k": "fixed", "sec": -86340}, {"k": "fixed", "sec": 0},
+       {"k": "own", "sec": 3600}, {"k": "own", "sec": None}]
+
+
+class _Zone(datetime.tzinfo):
+    """a tzinfo class of the caller (as pytz / dateutil zones are); sec None: no offset known"""
+
+    def __init__(self, sec):
+        self.sec = sec
+
+    def utcoffset(self, when):
+        return None if self.sec is None else datetime.timedelta(seconds=self.sec)
+
+    def dst(self, when):
+        return None if self.sec is None else datetime.timedelta(0)
+
+    def tzname(self, when):
+        return "Own/Zone"
+
+
+class _Time(datetime.time):
+    pass
+
+
+class _Date(datetime.date):
+    pass
+
+
+class _DateTime(datetime.datetime):
+    pass
+
+
+class _TimeStr(datetime.time):
+    def __str__(self):
+        return "T" + self.isoformat()
+
+
+class _DateStr(datetime.date):
+    def __str__(self):
+        return self.strftime("%d.%m.%Y")
+
+
+class _DateTimeStr(datetime.datetime):
+    def __str__(self):           # (the way pandas.Timestamp / isoformat spell it)
+        return self.isoformat()
+
+
+class _Int(int):
+    def __str__(self):
+        return "#%d" % int(self)
+    __repr__ = __str__
+
+
+class _Float(float):
+    def __str__(self):
+        return "%.1f approx." % float(self)
+    __repr__ = __str__
+
+
+class _Str(str):
+    pass
+
+
+def mk_tz(tz):
+    if tz is None:
+        return None
+    if tz["k"] == "utc":
+        return datetime.timezone.utc
+    if tz["k"] == "fixed":
+        return datetime.timezone(datetime.timedelta(seconds=tz["sec"]))
+    return _Zone(tz["sec"])
+
+
+def raw_value(d):
+    """the Python object a raw value descriptor stands for"""
+    import decimal
+    import enum
+    import fractions
+    r = d["r"]
+    if r == "time":
+        cls = [datetime.time, _Time, _TimeStr][d.get("sub", 0)]
+        return cls(*d["a"], tzinfo=mk_tz(d.get("tz")), fold=d.get("fold", 0))
+    if r == "datetime":
+        cls = [datetime.datetime, _DateTime, _DateTimeStr][d.get("sub", 0)]
+        return cls(*d["a"], tzinfo=mk_tz(d.get("tz")), fold=d.get("fold", 0))
+    if r == "date":
+        return [datetime.date, _Date, _DateStr][d.get("sub", 0)](*d["a"])
+    if r in ("s", "i", "b"):
+        return d["v"]
+    if r == "f":
+        return float(d["v"])
+    if r == "none":
+        return None
+    if r == "dec":
+        return decimal.Decimal(d["v"])
+    if r == "frac":
+        return fractions.Fraction(d["v"][0], d["v"][1])
+    if r == "bytes":
+        return d["v"].encode("utf-8")
+    if r == "list":
+        return [raw_value(x) for x in d["v"]]
+    if r == "tuple":
+        return tuple(raw_value(x) for x in d["v"])
+    if r == "dict":
+        return dict((k, raw_value(x)) for k, x in d["v"].items())
+    if r == "intenum":
+        return enum.IntEnum("Level", {"A": d["v"]}).A
+    if r == "dtype":                         # a member of odml.DType (a str Enum) used as a text
+        import odml
+        return getattr(odml.DType, d["v"])
+    if r == "isub":
+        return _Int(d["v"])
+    if r == "fsub":
+        return _Float(float(d["v"]))
+    if r == "ssub":
+        return _Str(d["v"])
+    raise ValueError(r)
+
+
+def contain(how, objs):
+    """the container (or not) in which a list of values is handed over"""
+    if how == "tuple":
+        return tuple(objs)
+    if how == "iter":
+        return iter(objs)
+    if how == "gen":
+        return (o for o in objs)
+    if how == "scalar" and len(objs) == 1:
+        return objs[0]
+    if how == "dictkeys":
+        try:
+            d = dict((o, None) for o in objs)
+            if len(d) == len(objs):
+                return d.keys()
+        except TypeError:
+            pass
+    return list(objs)
+
+
+def gen_raw_time(rng):
+    return {"r": "time", "a": [rng.choice([0, 1, 10, 12, 23, rng.randrange(24)]), rng.randrange(60),
+                               rng.choice([0, 59, rng.randrange(60)]),
+                               rng.choice([0, 0, 1, 250000, 999999, rng.randrange(10 ** 6)])],
+            "tz": rng.choice(TZS), "fold": rng.choice([0, 0, 0, 1]), "sub": rng.choice([0, 0, 0, 1, 2])}
+
+
+def gen_raw_date(rng):
+    y = rng.choice([1, 5, 999, 1000, 1999, 2024, 9999])
+    return {"r": "date", "a": [y, rng.randrange(1, 13), rng.randrange(1, 29)], "sub": rng.choice([0, 0, 1, 2])}
+
+
+def gen_raw_datetime(rng):
+    t = gen_raw_time(rng)
+    return {"r": "datetime", "a": gen_raw_date(rng)["a"] + t["a"], "tz": t["tz"], "fold": t["fold"],
+            "sub": t["sub"]}
+
+
+def gen_raw_any(rng):
+    """anything a caller may put into a Property of a text dtype (or of no dtype at all)"""
+    r = rng.randrange(16)
+    if r == 0:
+        return {"r": "i", "v": rng.choice([0, 5, -3, 10 ** 20])}
+    if r == 1:
+        return {"r": "f", "v": rng.choice(["1.5", "0.0", "1e+22", "nan", "-inf", "2.0"])}
+    if r == 2:
+        return {"r": "b", "v": rng.random() < 0.5}
+    if r == 3:
+        return {"r": "none"}
+    if r == 4:
+        return gen_raw_time(rng)
+    if r == 5:
+        return gen_raw_datetime(rng)
+    if r == 6:
+        return gen_raw_date(rng)
+    if r == 7:
+        return {"r": "bytes", "v": rng.choice([u"x", u"", u"a,b", u"\xe9"])}
+    if r == 8:
+        return {"r": "list", "v": [{"r": "i", "v": 1}, {"r": "s", "v": u"a"}][:rng.randrange(3)]}
+    if r == 9:
+        return {"r": "dict", "v": {} if rng.random() < 0.3 else {"k": {"r": "s", "v": u"v"}}}
+    if r == 10:
+        return {"r": "dec", "v": rng.choice(["2.50", "1E+3", "0"])}
+    if r == 11:
+        return {"r": "dtype", "v": rng.choice(["string", "int", "text", "float"])}
+    if r == 12:
+        return {"r": "ssub", "v": gen_text(rng)}
+    if r == 13:
+        return {"r": "intenum", "v": rng.choice([0, 1, 7])}
+    return {"r": "s", "v": gen_text(rng)}
+
+
+def gen_raw(rng, kind, k=2):
+    """one value for a Property of the given dtype kind, in one of the shapes the converters of
+    that dtype accept (now and then one they refuse: the assignment is then skipped)"""
+    cross = rng.random() < 0.06
+    if cross:
+        kind = rng.choice(["string", "int", "float", "boolean", "date", "time", "datetime"])
+    if kind in ("string", "text", "url", "person", "none"):
+        return gen_raw_any(rng)
+    if kind == "time":
+        if rng.random() < 0.75:
+            return gen_raw_time(rng)
+        return {"r": "s", "v": rng.choice([u"1:2:3", u"01:02:03", u"23:59:59", u"7:05:9", u"00:00:00",
+                                           u"10:15:30+00:00", u"12:00:00.25", u" 10:00:00", u"24:00:00"])}
+    if kind == "datetime":
+        if rng.random() < 0.75:
+            return gen_raw_datetime(rng)
+        if rng.random() < 0.2:
+            return gen_raw_date(rng)                 # a date is no datetime
+        return {"r": "s", "v": rng.choice([u"2020-1-2 3:4:5", u"1999-12-31 23:59:59", u"0005-01-02  01:02:03",
+                                           u"2020-01-02T03:04:05", u"2020-01-02 03:04:05+00:00",
+                                           u"2024-02-29\t00:00:00", u"2020-01-02 03:04:05.5"])}
+    if kind == "date":
+        if rng.random() < 0.7:
+            return gen_raw_date(rng)
+        if rng.random() < 0.3:
+            return gen_raw_datetime(rng)             # a datetime is a date as well (isinstance)
+        return {"r": "s", "v": rng.choice([u"2020-1-2", u"1999-12-31", u"0005-01-02", u"2024-02-29",
+                                           u"2023-02-29", u"2020-01- 2", u" 2020-01-02", u"20200102"])}
+    if kind == "int":
+        return rng.choice([{"r": "f", "v": rng.choice(["2.7", "-2.7", "-0.0", "1e+22", "3.0", "inf", "nan"])},
+                           {"r": "b", "v": rng.random() < 0.5},
+                           {"r": "s", "v": rng.choice([u"7", u" 7 ", u"-12", u"+5", u"1e3", u"7.9", u"0x10", u"1_000",
+                                                       u"٣", u"00012", u"1e400", u"", u"12345678901234567890123"])},
+                           {"r": "dec", "v": rng.choice(["2.5", "-7", "1E+2"])},
+                           {"r": "frac", "v": rng.choice([[7, 2], [-1, 3], [4, 1]])},
+                           {"r": "intenum", "v": rng.choice([0, 3, -1])},
+                           {"r": "isub", "v": rng.choice([0, 42, -5])},
+                           {"r": "i", "v": rng.choice([0, 1, -1, 10 ** 30])}, {"r": "none"}])
+    if kind == "float":
+        return rng.choice([{"r": "i", "v": rng.choice([3, 0, -1, 10 ** 30, 10 ** 400, 2 ** 53 + 1])},
+                           {"r": "b", "v": rng.random() < 0.5},
+                           {"r": "s", "v": rng.choice([u"1_0", u" 2.5 ", u"inf", u"-Infinity", u"nan", u"1e-7", u".5", u"5.",
+                                                       u"1,5", u"0x1p3", u"١.٥", u"1e400", u"-0.0", u"007"])},
+                           {"r": "dec", "v": rng.choice(["1.50", "0.1", "NaN", "1E+400"])},
+                           {"r": "frac", "v": rng.choice([[1, 3], [7, 2]])},
+                           {"r": "fsub", "v": rng.choice(["0.25", "-3.0"])},
+                           {"r": "f", "v": rng.choice(["0.5", "-0.0", "nan", "1e+22", "5e-324"])}, {"r": "none"}])
+    if kind == "boolean":
+        return rng.choice([{"r": "i", "v": rng.choice([0, 1, 2, -1])}, {"r": "f", "v": rng.choice(["1.0", "0.0", "0.5"])},
+                           {"r": "s", "v": rng.choice([u"TRUE", u"True", u"t", u"F", u"false", u"0", u"1", u"yes", u" true",
+                                                       u"", u"T"])},
+                           {"r": "b", "v": rng.random() < 0.5}, {"r": "none"}, {"r": "list", "v": []},
+                           {"r": "dec", "v": "1"}, {"r": "intenum", "v": 1}])
+    # n-tuples: the text form with padding, a list / tuple of the items (what the JSON / YAML
+    # readers hand over). Items are texts without `,` CR LF here (those are refused on saving and
+    # generated in the canonical form already).
+    items = [gen_item(rng).replace(u",", u"").replace(u"\n", u"").replace(u"\r", u"") for _ in range(k)]
+    if rng.random() < 0.1:
+        items = items[:-1] if rng.random() < 0.5 else items + [u"x"]       # wrong arity: refused
+    r = rng.random()
+    if r < 0.4:
+        return {"r": "s", "v": rng.choice([u"", u" ", u"\t"]) + u"(" + rng.choice([u"", u" "])
+                + rng.choice([u";", u" ; ", u"; "]).join(items) + rng.choice([u"", u" "]) + u")" + rng.choice([u"", u" ", u"\n"])}
+    if r < 0.7:
+        return {"r": "list", "v": [{"r": "s", "v": x} for x in items]}
+    return {"r": "tuple", "v": [{"r": "s", "v": x} for x in items]}
+
+
+CONTAINERS = ["list", "list", "list", "tuple", "iter", "gen", "scalar", "dictkeys"]
+
+
+def gen_vplan(rng, kind, k=2):
+    """how the values of one Property come about: the first assignment (constructor argument
+    `values=`, the deprecated `value=`, or the setter on the empty Property) and up to three
+    further calls of the value API, each with objects in non-canonical shapes"""
+    n = rng.choice([0, 1, 1, 1, 2, 2, 3, 4])
+    plan = {"first": rng.choice(["ctor", "ctor", "ctor", "value_kw", "setter", "value_setter"]),
+            "cont": rng.choice(CONTAINERS), "raw": [gen_raw(rng, kind, k) for _ in range(n)], "steps": []}
+    if kind == "tuple" and plan["cont"] == "dictkeys":
+        plan["cont"] = "list"
+    for _ in range(rng.choice([0, 0, 0, 1, 1, 2, 3])):
+        via = rng.choice(["append", "append", "extend", "extend", "insert", "setitem", "setitem", "set", "dtype",
+                          "remove", "extend_prop", "value_setter"])
+        step = {"via": via, "strict": rng.random() < 0.7, "i": rng.choice([0, 0, 1, 2, -1, 5]),
+                "cont": rng.choice(CONTAINERS)}
+        if via in ("append", "insert", "setitem"):
+            step["raw"] = [gen_raw(rng, kind, k)]
+        elif via in ("extend", "set", "extend_prop", "value_setter"):
+            step["raw"] = [gen_raw(rng, kind, k) for _ in range(rng.choice([0, 1, 2, 3]))]
+        elif via == "dtype":
+            step["to"] = rng.choice(["string", "text", "int", "float", "boolean", "date", "time", "datetime",
+                                     "String", "str", "bool", "person", "url", "2-tuple", None])
+            if rng.random() < 0.5:
+                step["back"] = True          # ... and back to the dtype it had
+        plan["steps"].append(step)
+    return plan
+
+
+def first_values(p):
+    """the `values` argument of the first assignment of a Property spec"""
+    plan = p.get("vplan")
+    if plan is None:
+        return [py_value(v) for v in p["values"]] or None
+    return contain(plan["cont"], [raw_value(d) for d in plan["raw"]])
+
+
+def apply_vplan(prop, p, first_done=True):
+    """the calls of the value API of a Property spec after its construction; a call the library
+    refuses is skipped (the Property keeps what it had: that is C05's business, here only the
+    document that exists afterwards matters)"""
+    import odml
+    plan = p.get("vplan")
+    if plan is None:
+        return
+    if not first_done:
+        try:
+            if plan["first"] == "value_setter":
+                prop.value = first_values(p)
+            else:
+                prop.values = first_values(p)
+        except Exception:
+            pass
+    for step in plan["steps"]:
+        try:
+            via = step["via"]
+            objs = [raw_value(d) for d in step.get("raw", [])]
+            if via == "append":
+                prop.append(objs[0], strict=step["strict"])
+            elif via == "insert":
+                prop.insert(step["i"], objs[0], strict=step["strict"])
+            elif via == "setitem":
+                prop[step["i"]] = objs[0]
+            elif via == "extend":
+                prop.extend(contain(step["cont"], objs), strict=step["strict"])
+            elif via == "extend_prop":
+                prop.extend(odml.Property(name="source", values=contain(step["cont"], objs), dtype=prop.dtype,
+                                          unit=prop.unit))
+            elif via == "set":
+                prop.values = contain(step["cont"], objs)
+            elif via == "value_setter":
+                prop.value = contain(step["cont"], objs)
+            elif via == "remove":
+                vals = prop.values
+                if vals:
+                    prop.remove(vals[step["i"] % len(vals)])
+            elif via == "dtype":
+                old = prop.dtype
+                prop.dtype = step["to"]
+                if step.get("back"):
+                    prop.dtype = old
+        except Exception:
+            pass
+
+
+# text attributes given as something that is not a text (the writer makes a text of it)
+RAW_ATTR_VALUES = [{"r": "i", "v": 0}, {"r": "i", "v": 5}, {"r": "f", "v": "1.5"}, {"r": "f", "v": "0.0"},
+                   {"r": "b", "v": True}, {"r": "b", "v": False}, {"r": "date", "a": [2020, 1, 2]},
+                   {"r": "dec", "v": "2.50"}, {"r": "time", "a": [1, 2, 3, 0], "tz": {"k": "utc"}},
+                   {"r": "f", "v": "nan"}, {"r": "bytes", "v": u"x"}, {"r": "ssub", "v": u"w"},
+                   {"r": "dtype", "v": "int"}]
+PROP_RAW_ATTRS = ["unit", "definition", "reference", "value_origin", "dependency_value"]
+SEC_RAW_ATTRS = ["definition", "reference"]
+DOC_RAW_ATTRS = ["author", "version"]
+
+
+def gen_raw_attrs(rng, keys, p=0.04):
+    if rng.random() >= p:
+        return None
+    return dict((k, rng.choice(RAW_ATTR_VALUES)) for k in rng.sample(keys, rng.choice([1, 1, 2])))
+
+
+def attr_of(spec, key):
+    """the value of a text attribute of a spec: the text, or the object of `raw_attrs`"""
+    raw = spec.get("raw_attrs")
+    if raw and key in raw:
+        return raw_value(raw[key])
+    return spec.get(key)
+
+
+CARD_SHAPES = ["tuple", "tuple", "tuple", "list", "int"]
+
+
 def gen_prop(rng, name):
     kind = rng.choice(["string", "string", "text", "url", "person", "int", "float", "boolean",
                        "date", "time", "datetime", "tuple", "tuple", "none"])
@@ -191,6 +580,17 @@ def gen_prop(rng, name):
     else:
         p["dtype"] = kind
         p["values"] = gen_values(rng, kind, n)
+    # round 4: values in non-canonical shapes, through the other calls of the value API, a dtype
+    # left to inference; text attributes that are no texts; the cardinality as list / single int
+    if rng.random() < 0.3:
+        p["vplan"] = gen_vplan(rng, kind, int(p["dtype"].split("-")[0]) if kind == "tuple" else 2)
+        if kind != "tuple" and rng.random() < 0.3:
+            p["dtype"] = None                    # the dtype is inferred from the first value
+    raw = gen_raw_attrs(rng, PROP_RAW_ATTRS)
+    if raw:
+        p["raw_attrs"] = raw
+    if p["val_card"] is not None:
+        p["card_shape"] = rng.choice(CARD_SHAPES)
     return p
 
 
@@ -221,6 +621,11 @@ def gen_sec(rng, name, depth, maxdepth=3):
          "sec_card": gen_card(rng), "prop_card": gen_card(rng)}
     if s["link"] is None and rng.random() < 0.1:
         s["include"] = gen_text(rng)
+    raw = gen_raw_attrs(rng, SEC_RAW_ATTRS)
+    if raw:
+        s["raw_attrs"] = raw
+    if s["sec_card"] is not None or s["prop_card"] is not None:
+        s["card_shape"] = rng.choice(CARD_SHAPES)
     np_ = rng.choice([0, 1, 1, 2, 3])
     if rng.random() < 0.03:
         np_ = rng.choice([10, 11, 12, 13])        # a 10th, 11th ... child
@@ -239,6 +644,30 @@ def depth_of(d):
     def rec(secs):
         return 0 if not secs else 1 + max(rec(s["secs"]) for s in secs)
     return rec(d["secs"])
+
+
+def has_bool_card(mem):
+    """a cardinality of the snapshot has a bool as a bound (round 4; not in the model's universe)"""
+    def bad(c):
+        return isinstance(c, list) and any(isinstance(x, bool) for x in c)
+    return any(bad(s["sec_card"]) or bad(s["prop_card"]) or any(bad(p["val_card"]) for p in s["props"])
+               for s in walk_secs(mem["secs"]))
+
+
+def has_none_value(mem):
+    """a value list of the snapshot holds None (round 4: what tuple_get makes of an empty or falsy
+    value of an n-tuple Property). wfDoc excludes such documents (valOk nul = false) and the model's
+    writer has no faithful rendering of them (the code's odml_tuple_export raises TypeError)."""
+    return any(v is None for sec in walk_secs(mem["secs"]) for p in sec["props"] for v in p["values"])
+
+
+def writer_modelled(mem):
+    """is the written tree of this document compared with the writer model?
+    Not from depth 5 on: the compiled writer model re-evaluates the Sub-Sections once per format
+    key, its running time grows tenfold per nesting level. Not (round 4) with a bool as a
+    cardinality bound or None in a value list: outside the model's universe (ints; typed values).
+    The written tree is then judged by the oracle and by the reader model only."""
+    return depth_of(mem) < 5 and not has_bool_card(mem) and not has_none_value(mem)
 
 
 def xml_depth(mem):
@@ -325,6 +754,15 @@ def gen_doc(rng, wild=True, tame=False, chain=False):
          "repository": rng.choice(REPOS),
          "date": str(datetime.date(rng.choice([5, 1999, 2024]), rng.randrange(1, 13), rng.randrange(1, 29)))
          if rng.random() < 0.4 else None}
+    # round 4: the date as an object (date, an instance of a subclass, a datetime - which the
+    # setter refuses -), as a text in another spelling; author / version that are no texts
+    if rng.random() < 0.15:
+        d["date_raw"] = rng.choice([gen_raw_date(rng), gen_raw_date(rng), gen_raw_datetime(rng),
+                                    {"r": "s", "v": rng.choice([u"2020-1-2", u"0005-1-01", u" 2020-01-02", u"2020-01-02 "])},
+                                    {"r": "i", "v": 20200102}])
+    raw = gen_raw_attrs(rng, DOC_RAW_ATTRS, 0.05)
+    if raw:
+        d["raw_attrs"] = raw
     maxdepth = rng.choice([4, 5, 6, 7]) if rng.random() < 0.06 else 3
     d["secs"] = [gen_sec(rng, nm, 1, maxdepth) for nm in gen_names(rng, rng.choice([0, 1, 1, 2, 3]))]
     # round 3: links that name an existing Section (stored by the constructor, not followed),
@@ -375,8 +813,15 @@ def py_value(v):
     return datetime.datetime.strptime(v["k"], "%Y-%m-%d %H:%M:%S")
 
 
-def tup(c):
-    return None if c is None else tuple(c)
+def tup(c, shape="tuple"):
+    """the cardinality argument of a spec: a tuple, (round 4) a list, or a single int = maximum"""
+    if c is None:
+        return None
+    if shape == "list":
+        return list(c)
+    if shape == "int" and c[0] is None:
+        return c[1]
+    return tuple(c)
 
 
 def build_doc(spec, route="ctor", finalize=False):
@@ -388,60 +833,107 @@ def build_doc(spec, route="ctor", finalize=False):
                back (reorder), removed and inserted again, renamed and renamed back, values
                assigned twice
     finalize=True: Document.finalize() afterwards (resolvable links are followed and merged; a
-    link that does not resolve raises and is left as it is)."""
+    link that does not resolve raises and is left as it is).
+    Round 4: Properties with a `vplan` get their values in non-canonical shapes through the whole
+    value API (first_values / apply_vplan); `raw_attrs` / `date_raw` / `card_shape` hand over
+    attributes as objects of other classes."""
     import odml
-    doc = odml.Document(author=spec.get("author"), date=spec.get("date"), version=spec.get("version"),
-                        repository=spec.get("repository"), oid=spec["id"]) if route != "setters" \
-        else odml.Document(oid=spec["id"], repository=spec.get("repository"))
-    if route == "setters":
+    date = raw_value(spec["date_raw"]) if "date_raw" in spec else spec.get("date")
+    if route != "setters":
+        kw = dict(author=attr_of(spec, "author"), version=attr_of(spec, "version"),
+                  repository=spec.get("repository"), oid=spec["id"])
+        try:
+            doc = odml.Document(date=date, **kw)
+        except Exception:
+            if "date_raw" not in spec:
+                raise
+            doc = odml.Document(date=None, **kw)     # a date object the setter refuses: no date
+    else:
         # (not the repository setter: it starts a background thread that fetches the URL - C18)
-        doc.date = spec.get("date")
-        doc.version = spec.get("version")
-        doc.author = spec.get("author")
+        doc = odml.Document(oid=spec["id"], repository=spec.get("repository"))
+        try:
+            doc.date = date
+        except Exception:
+            if "date_raw" not in spec:
+                raise
+        doc.version = attr_of(spec, "version")
+        doc.author = attr_of(spec, "author")
 
     def mk_prop(p, sec):
         unc = p.get("uncertainty")
-        return odml.Property(name=p["name"], values=[py_value(v) for v in p["values"]] or None,
-                             parent=sec, unit=p.get("unit"), uncertainty=None if unc is None else unc["py"],
-                             reference=p.get("reference"), definition=p.get("definition"),
-                             dependency=p.get("dependency"), dependency_value=p.get("dependency_value"),
-                             dtype=p.get("dtype"), value_origin=p.get("value_origin"), oid=p["id"],
-                             val_cardinality=tup(p.get("val_card")))
+        plan = p.get("vplan")
+        kw = dict(name=p["name"], parent=sec, unit=attr_of(p, "unit"), uncertainty=None if unc is None else unc["py"],
+                  reference=attr_of(p, "reference"), definition=attr_of(p, "definition"),
+                  dependency=p.get("dependency"), dependency_value=attr_of(p, "dependency_value"),
+                  dtype=p.get("dtype"), value_origin=attr_of(p, "value_origin"), oid=p["id"],
+                  val_cardinality=tup(p.get("val_card"), p.get("card_shape")))
+        if plan is None:
+            return odml.Property(values=first_values(p), **kw)
+        prop = None
+        if plan["first"] in ("ctor", "value_kw"):
+            try:
+                prop = odml.Property(**dict(kw, **{"values" if plan["first"] == "ctor" else "value": first_values(p)}))
+            except Exception:
+                prop = None          # values the constructor refuses: the Property without them
+        first_done = prop is not None
+        if prop is None:
+            try:
+                prop = odml.Property(values=None, **kw)
+            except Exception:
+                prop = odml.Property(values=None, **dict(kw, val_cardinality=None))
+        apply_vplan(prop, p, first_done)
+        return prop
 
     def set_prop(p, sec):
         unc = p.get("uncertainty")
         if unc is not None and not unc["num"]:
             return mk_prop(p, sec)        # the setter only takes numbers; texts go through the constructor
-        prop = sec.create_property(p["name"], values=[py_value(v) for v in p["values"]] or None,
-                                   dtype=p.get("dtype"), oid=p["id"])
-        prop.val_cardinality = tup(p.get("val_card"))
-        prop.value_origin = p.get("value_origin")
-        prop.dependency_value = p.get("dependency_value")
+        first_done = True
+        try:
+            prop = sec.create_property(p["name"], values=first_values(p), dtype=p.get("dtype"), oid=p["id"])
+        except Exception:
+            if p.get("vplan") is None:
+                raise
+            prop = sec.create_property(p["name"], values=None, dtype=p.get("dtype"), oid=p["id"])
+            first_done = False
+        if p.get("vplan") is not None and p["vplan"]["first"] in ("setter", "value_setter") and first_done:
+            # (create_property has taken the values already: assign them once more the other way)
+            first_done = False
+        apply_vplan(prop, p, first_done)
+        try:
+            prop.val_cardinality = tup(p.get("val_card"), p.get("card_shape"))
+        except Exception:
+            if p.get("vplan") is None:
+                raise
+        prop.value_origin = attr_of(p, "value_origin")
+        prop.dependency_value = attr_of(p, "dependency_value")
         prop.dependency = p.get("dependency")
-        prop.definition = p.get("definition")
-        prop.reference = p.get("reference")
+        prop.definition = attr_of(p, "definition")
+        prop.reference = attr_of(p, "reference")
         if unc is not None:
             prop.uncertainty = unc["py"]
-        prop.unit = p.get("unit")
+        prop.unit = attr_of(p, "unit")
         return prop
 
     def add_sec(s, parent):
+        shape = s.get("card_shape")
         if route == "setters":
             sec = parent.create_section(name=s["name"], type=s["type"], oid=s["id"], link=s.get("link"),
                                         include=s.get("include"), repository=s.get("repository"))
-            sec.reference = s.get("reference")
-            sec.definition = s.get("definition")
+            sec.reference = attr_of(s, "reference")
+            sec.definition = attr_of(s, "definition")
             for c in s["secs"]:
                 add_sec(c, sec)
             for p in s["props"]:
                 set_prop(p, sec)
-            sec.prop_cardinality = tup(s.get("prop_card"))
-            sec.sec_cardinality = tup(s.get("sec_card"))
+            sec.prop_cardinality = tup(s.get("prop_card"), shape)
+            sec.sec_cardinality = tup(s.get("sec_card"), shape)
             return sec
-        sec = odml.Section(name=s["name"], type=s["type"], parent=parent, definition=s.get("definition"),
-                           reference=s.get("reference"), repository=s.get("repository"),
+        sec = odml.Section(name=s["name"], type=s["type"], parent=parent, definition=attr_of(s, "definition"),
+                           reference=attr_of(s, "reference"), repository=s.get("repository"),
                            link=s.get("link"), include=s.get("include"), oid=s["id"],
-                           sec_cardinality=tup(s.get("sec_card")), prop_cardinality=tup(s.get("prop_card")))
+                           sec_cardinality=tup(s.get("sec_card"), shape),
+                           prop_cardinality=tup(s.get("prop_card"), shape))
         for p in s["props"]:
             mk_prop(p, sec)
         for c in s["secs"]:
@@ -483,26 +975,33 @@ def build_doc(spec, route="ctor", finalize=False):
 
 
 def text_out(x):
-    return None if x is None else (x if isinstance(x, str) else str(x))
+    # (the text of an attribute that holds something else than a str is str() of it, which is what
+    # every writer makes of it; for a str that is the str itself. Round 4: also for instances of
+    # str subclasses - odml.DType members -, whose str() is the weaker reading of "the text")
+    return None if x is None else str(x)
 
 
 def card_out(c):
     if c is None:
         return None
     if isinstance(c, tuple) and len(c) == 2:
-        return [None if x is None else int(x) for x in c]
+        # (round 4: a bound that is a bool stays one: bool is an int for format_cardinality, the
+        # writer spells it True / False)
+        return [None if x is None else (x if isinstance(x, bool) else int(x)) for x in c]
     return {"weird": repr(c)}
 
 
 def val_out(v):
     if v is None:
         return None
+    # (plain copies: on a changed tree a stored value may be an instance of a subclass of the
+    # caller - an IntEnum member, a str subclass -, which the observation must not carry along)
     if isinstance(v, bool):
-        return {"b": v}
+        return {"b": bool(v)}
     if isinstance(v, int):
-        return {"i": v}
+        return {"i": int(v)}
     if isinstance(v, str):
-        return {"s": v}
+        return {"s": str(v)}
     if isinstance(v, (list, tuple)):
         return {"t": [text_out(x) for x in v]}
     return {"k": str(v)}
@@ -859,6 +1358,11 @@ def must_write(mem):
     XML 1.0) has to be written. Everything else: no claim (the writer may write or refuse; what it
     writes has to load to the document)."""
     if shape_flags(mem) & {"blank_name", "names_clash_after_trim", "tuple_item_separator"}:
+        return False
+    # round 4: a value list that holds None (what tuple_get makes of an empty / falsy value of an
+    # n-tuple Property) has no XML spelling either: no claim (weaker reading; whether such a value
+    # should be stored at all is the business of the value conversion, C05)
+    if has_none_value(mem):
         return False
     return _all_plain(mem)
 
@@ -1237,11 +1741,11 @@ def bad_text(text, how):
 class C01(fw.Check):
     prop = "C01"
     lean_targets = ["OdmlModel.Props.C01"]
-    obligations = ["C01." + t for t in ['csv_lib_roundtrip', 'csv_roundtrip', 'csv_empty_iff', 'csv_legacy_counterexample_comma', 'csv_legacy_counterexample_quote', 'csv_legacy_counterexample_newline', 'csv_legacy_counterexample_single_quote', 'csv_legacy_counterexample_single_bracket', 'csv_legacy_counterexample_empty', 'int_text_roundtrip', 'tuple_text_roundtrip', 'value_retyped', 'value_text_roundtrip', 'card_text_roundtrip', 'leaf_text_roundtrip', 'xml_vocab', 'xml_version', 'writer_keys_readable', 'xml_unrepresentable_chars', 'uncertainty_counterexample', 'blank_name_refused', 'tuple_item_refused', 'tuple_item_refused_raises', 'name_clash_refused', 'prop_xml_roundtrip', 'sec_xml_roundtrip', 'xml_roundtrip', 'xml_roundtrip_lenient', 'xml_save_load', 'dtype_case_counterexample', 'xml_denote', 'xml_strict_lenient_agree', 'xml_denote_sec', 'xml_denote_prop', 'xml_write_denotes', 'xml_roundtrip_or_refused', 'xml_refused_iff_not_repr']]
+    obligations = ["C01." + t for t in ['csv_lib_roundtrip', 'csv_roundtrip', 'csv_empty_iff', 'csv_legacy_counterexample_comma', 'csv_legacy_counterexample_quote', 'csv_legacy_counterexample_newline', 'csv_legacy_counterexample_single_quote', 'csv_legacy_counterexample_single_bracket', 'csv_legacy_counterexample_empty', 'int_text_roundtrip', 'tuple_text_roundtrip', 'value_retyped', 'value_text_roundtrip', 'card_text_roundtrip', 'leaf_text_roundtrip', 'xml_vocab', 'xml_version', 'writer_keys_readable', 'xml_unrepresentable_chars', 'uncertainty_counterexample', 'blank_name_refused', 'tuple_item_refused', 'tuple_item_refused_raises', 'name_clash_refused', 'prop_xml_roundtrip', 'sec_xml_roundtrip', 'xml_roundtrip', 'xml_roundtrip_lenient', 'xml_save_load', 'dtype_case_counterexample', 'xml_denote', 'xml_strict_lenient_agree', 'xml_denote_sec', 'xml_denote_prop', 'xml_write_denotes', 'xml_roundtrip_or_refused', 'xml_refused_iff_not_repr', 'time_object_value_ok', 'datetime_object_value_ok', 'date_object_value_ok', 'aware_time_text_counterexample', 'subsecond_time_text_counterexample']]
     trusted_base = [
         "Lean 4.33.0 kernel; axioms propext, Classical.choice, Quot.sound only (audited per theorem)",
         "hand-written models lean/OdmlModel/Py/Csv.lean, Model/XmlCsv.lean, Model/Xml.lean, "
-        "Model/XmlRepr.lean, tied to /repo by this correspondence run",
+        "Model/XmlRepr.lean, Model/XmlTok.lean (with Py/Time.lean), tied to /repo by this correspondence run",
         "harness/extract_tables.py (format tables regenerated into Lean on every run)",
         "Driver/*.lean JSON glue; harness/framework.py, harness/c01.py",
         "lxml text<->tree (contract: parse(serialise(t)) = t on XML-compatible trees; ValueError on "
@@ -1270,6 +1774,13 @@ class C01(fw.Check):
             "points x 4 templates x 10 file name shapes x an older file in the way; 18 reader entry "
             "points; surface: 14 encodings x declaration / prolog / epilog / line end / CDATA / root tag "
             "styles x 12 reader entry points; session: 5 kinds of object reuse; proc: 6 environments. "
+            "Round 4: 30 % of the Properties get their values as objects in non-canonical shapes (aware / "
+            "sub-second / fold / subclass times and datetimes, texts in other spellings, numbers of "
+            "neighbouring classes, anything for text dtypes, None) through constructor / value= / setter / "
+            "append / extend / insert / item assignment / dtype change, in lists / tuples / iterators / "
+            "scalars, with the dtype left to inference; attributes that are no texts; cardinalities as "
+            "list / int / with a bool bound; the Document date as object; tokobj: single temporal "
+            "objects vs the model. "
             "Non-trivial: a csv case with a special character, a doc case with at least one "
             "Property with values, a foreign / surface case that loads, a session with at least one "
             "load, a proc case that answered; distinct = distinct canonical JSON.")
@@ -1340,6 +1851,15 @@ class C01(fw.Check):
                 {"LC_ALL": "C", "PYTHONUTF8": "0", "PYTHONCOERCECLOCALE": "0", "PYTHONIOENCODING": "latin-1",
                  "PYTHONHASHSEED": "77"},
                 {"LANG": "en_US.ISO-8859-1", "PYTHONUTF8": "0", "PYTHONCOERCECLOCALE": "0", "PYTHONHASHSEED": "random"}]
+        # round 4 ---------------------------------------------------------------------------------
+        n_tok = 6000 if big else 600
+        for i in range(n_tok):
+            obj, kind = rng.choice([("time", "time"), ("time", "time"), ("datetime", "datetime"),
+                                    ("datetime", "datetime"), ("date", "date"), ("datetime", "date")])
+            desc = {"time": gen_raw_time, "datetime": gen_raw_datetime, "date": gen_raw_date}[obj](rng)
+            desc["sub"] = rng.choice([0, 0, 1])       # (an own __str__ is not in the model)
+            cases.append({"stream": "tokobj", "kind": kind, "obj": desc,
+                          "infer": rng.random() < 0.3, "via": rng.choice(["ctor", "append", "setitem", "extend"])})
         n_proc = 48 if big else 6
         for i in range(n_proc):
             # documents that are certain to hold text beyond ASCII and beyond Latin-1
@@ -1369,6 +1889,15 @@ class C01(fw.Check):
         case["route"] = rng.choice(["ctor", "ctor", "setters", "churn"])
         # (links are followed in about a third of the documents where that is certain to end)
         case["finalize"] = finalize_safe(doc) and rng.random() < 0.35
+        if rng.random() < 0.03:
+            # round 4, argument shapes: a bool as a cardinality bound (True is the int 1 for
+            # format_cardinality); oracle only, see has_bool_card
+            slots = [(s, k) for s in walk_secs(doc["secs"]) for k in ("sec_card", "prop_card")]
+            slots += [(p, "val_card") for s in walk_secs(doc["secs"]) for p in s["props"]]
+            if slots:
+                o, k = rng.choice(slots)
+                o[k] = rng.choice([[True, rng.choice([1, 2, 5, 10])], [None, True], [True, None], [True, True]])
+                o["card_shape"] = rng.choice(["tuple", "list"])
         return case
 
     # -- implementation ------------------------------------------------------
@@ -1412,6 +1941,8 @@ class C01(fw.Check):
             return self.impl_session(case)
         if st == "proc":
             return self.impl_proc(case)
+        if st == "tokobj":
+            return self.impl_tokobj(case)
         raise ValueError(st)
 
     def impl_doc(self, case):
@@ -1487,6 +2018,69 @@ class C01(fw.Check):
                     "vocab": sorted(voc), "valid": valid}
         finally:
             shutil.rmtree(tmp, ignore_errors=True)
+
+    def impl_tokobj(self, case):
+        import odml
+        from odml import dtypes
+        from odml.tools.xmlparser import XMLReader, XMLWriter
+        kind = case["kind"]
+        obj = raw_value(case["obj"])
+        out = {"str": str(obj), "stored": None, "back": None, "own": None}
+        try:
+            out["stored"] = str(dtypes.get(obj, kind))
+        except Exception:
+            pass
+        if out["stored"] is not None:
+            try:
+                out["back"] = str(dtypes.get(out["stored"], kind))
+            except Exception:
+                pass
+        try:
+            out["own"] = str(dtypes.get(str(obj), kind))
+        except Exception:
+            pass
+        # the same through the public API: a Property that is given the object, saved and loaded
+        doc = odml.Document()
+        sec = odml.Section(name="s", type="t", parent=doc)
+        dtype = None if case.get("infer") else kind
+        first = raw_value(dict(case["obj"], tz=None, sub=0, fold=0))     # a plain object of the class
+        try:
+            via = case.get("via", "ctor")
+            if via == "ctor":
+                prop = odml.Property(name="p", values=[obj, first], dtype=dtype, parent=sec)
+            else:
+                prop = odml.Property(name="p", values=[first], dtype=dtype, parent=sec)
+                if via == "append":
+                    prop.append(obj)
+                elif via == "extend":
+                    prop.extend([obj, obj])
+                else:
+                    prop[0] = obj
+        except Exception as exc:
+            out["refused"] = fw.exc_name(exc)
+            return out
+
+        def snap(p):
+            return {"dtype": p.dtype, "values": [[type(v).__name__, str(v)] for v in p.values]}
+
+        out["saved"] = snap(prop)
+        out["loads"] = {}
+        tmp = tempfile.mkdtemp(prefix="c01_")
+        try:
+            path = os.path.join(tmp, "t.xml")
+            for tag, fn in (("strict_string", lambda: XMLReader(show_warnings=False).from_string(str(XMLWriter(doc)))),
+                            ("lenient_string", lambda: XMLReader(ignore_errors=True, show_warnings=False)
+                             .from_string(str(XMLWriter(doc)))),
+                            ("save_load", lambda: odml.save(doc, path) or odml.load(path, show_warnings=False))):
+                try:
+                    back = fn()
+                    out["loads"][tag] = snap(back.sections[0].properties[0]) \
+                        if len(back.sections) == 1 and len(back.sections[0].properties) == 1 else {"shape": "other"}
+                except Exception as exc:
+                    out["loads"][tag] = {"raised": fw.exc_name(exc)}
+        finally:
+            shutil.rmtree(tmp, ignore_errors=True)
+        return out
 
     def impl_foreign(self, case):
         import random
@@ -1822,7 +2416,7 @@ class C01(fw.Check):
             # (the compiled writer model re-evaluates the Sub-Sections once per format key: its
             # running time grows tenfold per nesting level; from depth 5 on the written tree is
             # judged by the oracle and by the reader model only)
-            reqs = [dict(P, op="write", doc=obs["mem"])] if depth_of(obs["mem"]) < 5 else []
+            reqs = [dict(P, op="write", doc=obs["mem"])] if writer_modelled(obs["mem"]) else []
             plain = self.first_tree(obs, styled=False)
             if plain is not None:
                 reqs.append(dict(P, op="read", mode="strict", x=plain))
@@ -1837,6 +2431,15 @@ class C01(fw.Check):
                 return []
             return [dict(P, op="read", mode="strict", x=obs["tree"]),
                     dict(P, op="read", mode="lenient", x=obs["tree"])]
+        if st == "tokobj":
+            d = case["obj"]
+            tz = d.get("tz")
+            off = None
+            if tz is not None and tz.get("sec", 0) is not None:
+                sec = 0 if tz["k"] == "utc" else tz["sec"]
+                off = [sec < 0, abs(sec)]
+            return [dict(P, op="tokobj", obj=d["r"], kind=case["kind"], a=d["a"], off=off,
+                         fold=bool(d.get("fold")))]
         return []           # session, proc: oracle only
 
     @staticmethod
@@ -1900,7 +2503,7 @@ class C01(fw.Check):
                 if answers[0] != want:
                     out.append("from_csv gives %r, model %r" % (want, answers[0]))
         elif st == "doc" and answers:
-            deep = depth_of(obs["mem"]) >= 5
+            deep = not writer_modelled(obs["mem"])
             w = {} if deep else answers[0]
             voc = set(obs["vocab"])
             for name in WRITERS:
@@ -1946,6 +2549,11 @@ class C01(fw.Check):
         elif st == "surface" and answers:
             for r, load in sorted(obs["loads"].items()):
                 out += self.cmp_read(r, answers[0] if reader_of(r) in STRICT else answers[1], load)
+        elif st == "tokobj" and answers:
+            for k, what in (("str", "str(obj)"), ("stored", "the text of the stored value"),
+                            ("back", "the stored text read back"), ("own", "the object's own text read back")):
+                if answers[0].get(k) != obs.get(k):
+                    out.append("tokobj %s: implementation %r, model %r" % (what, obs.get(k), answers[0].get(k)))
         return out[:6]
 
     # -- oracle (the round-trip law over the public API; independent of the model) ------------
@@ -1968,6 +2576,14 @@ class C01(fw.Check):
             out += self.oracle_session(obs)
         elif st == "proc":
             out += self.oracle_proc(obs)
+        elif st == "tokobj":
+            # the property over the public API: the Property that was given the object holds typed
+            # values; the XML form written for it loads to the same dtype and the same typed values
+            if "saved" in obs:
+                for tag, load in sorted(obs["loads"].items()):
+                    if load != obs["saved"]:
+                        out.append("TOKOBJ %s: a %s Property given %s holds %r, loaded %r"
+                                   % (tag, case["kind"], obs["str"], obs["saved"], load))
         elif st == "surface" or (st == "foreign" and case["benign"]):
             want = trim_doc(obs["mem"])
             flags = shape_flags(obs["mem"])
@@ -1993,6 +2609,9 @@ class C01(fw.Check):
                     kind = "uncertainty_number"
             elif leafname == "name" and a == u"" and b is None:
                 kind = "blank_name"          # trimmed name is empty; the loaded object is named by its id
+            elif leafname in ("val_card", "sec_card", "prop_card") and b is None and isinstance(a, list) \
+                    and any(isinstance(x, bool) for x in a):
+                kind = "bool_cardinality"    # the saved cardinality has a bool bound, the loaded object none
             if any(path == pp or path.startswith(pp + "/") for pp in self._sep_props):
                 kind = "tuple_item_separator"
             if path in self._clash and isinstance(a, list) and isinstance(b, list) \
@@ -2104,6 +2723,9 @@ class C01(fw.Check):
         obs = unsqueeze(obs)
         if failure.startswith("DIFF[uncertainty_number]"):
             return "uncertainty_number_loaded_as_str"
+        # round 4: only the loss of a whole cardinality one of whose bounds was given as a bool
+        if failure.startswith("DIFF[bool_cardinality]"):
+            return "bool_cardinality_bound_lost"
         # round 3: the readers cannot load what the writer wrote for Sections nested 255 or more
         # levels deep (libxml2's depth limit): only a refused LOAD of a plainly written chain that deep
         if failure.startswith("LOAD ") and " raised parser " in failure and case.get("stream") == "doc" \
@@ -2128,6 +2750,9 @@ class C01(fw.Check):
             return ("session:" + case["kind"], len(obs["checks"]) > 0)
         if st == "proc":
             return ("proc", "results" in obs)
+        if st == "tokobj":
+            return ("tokobj:%s->%s:%s" % (case["obj"]["r"], case["kind"], "refused" if "refused" in obs else "stored"),
+                    "saved" in obs)
         if st == "surface":
             enc = ENCODINGS[case["enc"] % len(ENCODINGS)]
             return ("surface:%s" % (enc[0] or "undeclared-" + enc[1]), "raised" not in obs["loads"]["strict_file"])
